@@ -156,6 +156,7 @@ func vxH_C08_history() {
 		fs = vxNewFS()
 		so = vxStoreOptions(fs)
 		so.CollectionOptions.MergeOperator = vxAppendMO{}
+		so.CollectionOptions.CachePersisted = vxChoose(2) == 1
 		so.CompactionLevelMaxSegments = 1 + vxChoose(2)
 		so.CompactionLevelMultiplier = 2
 		so.CompactionPercentage = -1
